@@ -2,6 +2,9 @@ package sim
 
 import (
 	"context"
+	"encoding/json"
+	"fmt"
+	apiequality "k8s.io/apimachinery/pkg/api/equality"
 	"sort"
 	"time"
 
@@ -109,6 +112,7 @@ type DetInformer struct {
 	cursor    int // next index in API.Log to examine
 	Split     bool
 	Delivered int
+	pristine  map[string]runtime.Object
 	// OnTombstone, if set, is told about every object a relist finds gone (with the cache's last copy of it)
 	OnTombstone func(k Kind, cached interface{})
 }
@@ -140,6 +144,46 @@ func (d *DetInformer) LastSyncResourceVersion() string                    { retu
 func (d *DetInformer) SetWatchErrorHandler(cache.WatchErrorHandler) error { return nil }
 func (d *DetInformer) AddIndexers(i cache.Indexers) error                 { return d.raw.AddIndexers(i) }
 func (d *DetInformer) GetIndexer() cache.Indexer                          { return d.idx }
+
+// put stores obj in the cache and remembers a private copy of it: whoever reads objects from an informer cache
+// must treat them as read-only (client-go's contract), see Mutated.
+func (d *DetInformer) put(obj interface{}) {
+	_ = d.raw.Add(obj)
+	if key, err := cache.MetaNamespaceKeyFunc(obj); err == nil {
+		if d.pristine == nil {
+			d.pristine = map[string]runtime.Object{}
+		}
+		d.pristine[key] = obj.(runtime.Object).DeepCopyObject()
+	}
+}
+
+func (d *DetInformer) del(obj interface{}) {
+	_ = d.raw.Delete(obj)
+	if key, err := cache.MetaNamespaceKeyFunc(obj); err == nil {
+		delete(d.pristine, key)
+	}
+}
+
+// Mutated lists the cached objects that no longer equal the copy taken when they were stored (somebody wrote
+// through a pointer obtained from the lister), as "key: <diff hint>", and re-bases them.
+func (d *DetInformer) Mutated() []string {
+	var out []string
+	for _, key := range d.raw.ListKeys() {
+		cur, ok, _ := d.raw.GetByKey(key)
+		was := d.pristine[key]
+		if !ok || was == nil {
+			continue
+		}
+		if !apiequality.Semantic.DeepEqual(cur, was) {
+			a, _ := json.Marshal(was)
+			b, _ := json.Marshal(cur)
+			out = append(out, fmt.Sprintf("%s: was %s now %s", key, a, b))
+			d.pristine[key] = cur.(runtime.Object).DeepCopyObject()
+		}
+	}
+	sort.Strings(out)
+	return out
+}
 
 // Raw gives monitor code access to the cache without recording a view.
 func (d *DetInformer) Raw() cache.Indexer { return d.raw }
@@ -235,11 +279,11 @@ func (d *DetInformer) DeliverOne(api *API) bool {
 	var n notification
 	switch typ {
 	case Added:
-		_ = d.raw.Add(obj)
+		d.put(obj)
 		n = notification{typ: Added, obj: obj}
 	case Modified:
 		old, exists, _ := d.raw.Get(obj)
-		_ = d.raw.Update(obj)
+		d.put(obj)
 		if exists {
 			n = notification{typ: Modified, old: old, obj: obj}
 		} else {
@@ -247,7 +291,7 @@ func (d *DetInformer) DeliverOne(api *API) bool {
 		}
 	case Deleted:
 		old, exists, _ := d.raw.Get(obj)
-		_ = d.raw.Delete(obj)
+		d.del(obj)
 		if !exists {
 			return true
 		}
@@ -293,7 +337,7 @@ func (d *DetInformer) Relist(api *API) (int, int) {
 		present[key] = true
 		old, exists, _ := d.raw.GetByKey(key)
 		if !exists {
-			_ = d.raw.Add(o)
+			d.put(o)
 			ns = append(ns, notification{typ: Added, obj: o})
 			continue
 		}
@@ -302,7 +346,7 @@ func (d *DetInformer) Relist(api *API) (int, int) {
 		if om.GetResourceVersion() == nm.GetResourceVersion() {
 			continue
 		}
-		_ = d.raw.Update(o)
+		d.put(o)
 		ns = append(ns, notification{typ: Modified, old: old, obj: o})
 	}
 	changed := len(ns)
@@ -311,7 +355,7 @@ func (d *DetInformer) Relist(api *API) (int, int) {
 		if present[key] {
 			continue
 		}
-		_ = d.raw.Delete(old)
+		d.del(old)
 		if d.OnTombstone != nil {
 			d.OnTombstone(d.Kind, old)
 		}
@@ -378,7 +422,7 @@ func (d *DetInformer) InitialSync(api *API) {
 	d.cursor = len(api.Log)
 	api.mu.Unlock()
 	for _, o := range objs {
-		_ = d.raw.Add(o)
+		d.put(o)
 		for _, l := range d.listeners {
 			l.pending = append(l.pending, notification{typ: Added, obj: o})
 			if !d.Split {
